@@ -1,5 +1,6 @@
 import Driver.Util
 import Driver.RtCompat
+import Driver.IrCheck
 /-! Protocol handlers of the `decl.*` suites. -/
 open Lean
 namespace Driver.Decl
@@ -8,6 +9,9 @@ def handle (op : String) (j : Json) : Except String Json := do
   -- BEGIN C07: `decl.compat.*` (two-environment ops, Driver/RtCompat.lean)
   if op.startsWith "decl.compat." then return ← Driver.RtCompat.handle op j
   -- END C07
+  -- BEGIN C10: `decl.ircheck.*` (Driver/IrCheck.lean)
+  if op.startsWith "decl.ircheck." then return ← Driver.IrCheck.handle op j
+  -- END C10
   throw s!"unknown op {op}"
 
 end Driver.Decl
